@@ -32,6 +32,7 @@ theorem limits_constant (tbl : List IfaceRow) (b : Bus) (ev : Ev) : (step tbl b 
       gate := fun _ _ _ _ _ => rfl
       forget := fun _ _ => rfl
       expire := fun _ => rfl
+      expireSome := fun _ _ => rfl
       acquire := fun t c n f _ => (step_acquire t c n f).bus.2.2.2.1
       release := fun t c n => (step_release t c n).bus.2.2.2.1
       removeOwner := fun t n c => (step_removeOwner t n c).bus.2.2.2.1
